@@ -5,12 +5,12 @@ import json
 TECH = "bounded symbolic execution of go/ssa (own executor) + SMT (z3): every assertion decided per path by unsat/sat"
 
 P = {
- "C01": ("FindAll on real DB code over the reference store vs the documented criteria semantics: 2 documents (x absent/nil/float64), comparison operators with symbolic literals, index absent/before/after data; sort+criteria and create-by-query variants; criteria leaves at depth over mixed kinds are decided in C16's harnesses",
-         "reference store (memstore) instead of bbolt/badger; msgpack/json are identity stubs; D<=2 documents; depth-1 criteria at DB level"),
+ "C01": ("FindAll on real DB code over the reference store vs the documented criteria semantics: comparison operators with symbolic literals on 2 documents, all 11 leaf operators on mixed kinds (1 document), histories of length two (a write through each write API, then filtered and sorted reads through the index), negation chains and depth-1 trees through the planner, index absent/before/after the data",
+         "reference store (memstore) instead of bbolt/badger; msgpack/json are identity stubs; D<=2 documents; criteria depth <=1 at DB level (deeper nestings are decided on the planner and on Satisfy separately: C02 layer 1, C16)"),
  "C02": ("planner range soundness as an implication decided for every criteria tree of depth<=1 (11 leaf operators, literals nil/float/string, field references) x index sets {x},{y},{x,y} x symbolic documents, plus end-to-end FindAll/sort/window checks with and without indexes",
          "tree depth<=1 in quick (2 in thorough); literals from nil/{-1.5,0,2.5}/string<=1; reference store"),
- "C03": ("Update/UpdateFunc/Delete/DeleteById/DropCollection on 2-document states with index none|x|x+xy: touched set = matching set of the pre-state, callback once per match on the pre-call value, others byte-identical, raw-store audit; snapshot-cursor reference store",
-         "collections of 2 documents only: page-layout-dependent behaviour of real bbolt on multi-page collections is outside the claim; cursor semantics = snapshot at creation (badger's contract)"),
+ "C03": ("Update/UpdateFunc/Delete/DeleteById/DropCollection on 2-4-document states with index none|x|x+xy, also on sorted/skipped/limited queries (selection = the real FindAll of the pre-state): touched set exact, callback once per match on the pre-call value, others byte-identical, raw-store audit; the same script on the real bbolt and badger adapters gives identical results",
+         "2-4 documents per state: page-layout-dependent behaviour of real bbolt on multi-page collections is reached only through the scaled native replay (400 extra documents) of counterexamples found on the bbolt contract stub, whose cursor is position-based after a mutation; reference store cursors are snapshots (badger's contract); the thorough tier repeats the bulk-operation harnesses over both real adapters"),
  "C04": ("every operation x every position k<=40 of one failing store call (begin/get/set/delete/cursor/item/commit) on the reference store: error reported, committed content unchanged, no open transaction, follow-up operations succeed; invalid-input cases (duplicate/malformed ids, id rewrite, missing/existing objects, failing import)",
          "one fault per operation; reference store's fault points; composite operations (import, create-by-query) are checked for the read-before-create order only"),
  "C05": ("REDUCED: the crash/fsync path of bbolt/badger cannot be encoded. Decided instead on every path of every write operation: exactly one write transaction, all writes inside it, committed exactly once iff success, nothing committed on error, no write after commit",
